@@ -54,16 +54,20 @@ def main():
                 e.call('(*%s).%s' % (T, meth), [blk.v, dst, src])
                 audit(e, '%s.%s' % (T.split('.')[-1], meth), shared, {src.obj: 'src', key.obj: 'key'}, {dst.obj})
             if cando:
-                aead, _ = e.call('(*%s.sm4CipherAsm).NewGCM' % SM4, [blk.v, 12, 16])
-                audit(e, 'NewGCM', shared, {}, {aead.v.obj})
-                shared[aead.v.obj] = 'cipher.AEAD'
-                for pl in ((0, 17, 64, 300) if not thorough else (0, 1, 15, 16, 17, 33, 64, 65, 129, 300, 1100)):
-                    nonce, pt, aad = e.new_slice(list(range(12))), e.new_slice([5] * pl) if pl else e.new_slice([]), e.new_slice([1, 2, 3])
-                    out = e.call('(*%s.sm4GcmAsm).Seal' % SM4, [aead.v, NILSLICE, nonce, pt, aad])
-                    audit(e, 'Seal(%d)' % pl, shared, {nonce.obj: 'nonce', pt.obj: 'plaintext', aad.obj: 'additional data', key.obj: 'key'}, {out.obj})
-                    ct = e.new_slice(e.slice_list(out))
-                    p2, err = e.call('(*%s.sm4GcmAsm).Open' % SM4, [aead.v, NILSLICE, nonce, ct, aad])
-                    audit(e, 'Open(%d)' % pl, shared, {nonce.obj: 'nonce', ct.obj: 'ciphertext', aad.obj: 'additional data', key.obj: 'key'}, {p2.obj} if p2.obj else set())
+                for ns, ts in (((12, 16), (13, 12), (130, 16)) if not thorough else ((12, 16), (13, 12), (1, 15), (16, 16), (130, 13), (300, 16))):
+                    aead, _ = e.call('(*%s.sm4CipherAsm).NewGCM' % SM4, [blk.v, ns, ts])
+                    audit(e, 'NewGCM(%d,%d)' % (ns, ts), shared, {}, {aead.v.obj})
+                    sh2 = dict(shared)
+                    sh2[aead.v.obj] = 'cipher.AEAD'
+                    for pl in ((0, 17, 64, 300) if not thorough else (0, 1, 15, 16, 17, 33, 64, 65, 129, 300, 1100)):
+                        if ns != 12 and pl not in (0, 17, 300):
+                            continue
+                        nonce, pt, aad = e.new_slice([(7 * i + 1) & 255 for i in range(ns)]), e.new_slice([5] * pl) if pl else e.new_slice([]), e.new_slice([1, 2, 3] if pl != 17 else list(range(21)))
+                        out = e.call('(*%s.sm4GcmAsm).Seal' % SM4, [aead.v, NILSLICE, nonce, pt, aad])
+                        audit(e, 'Seal(%d;nonce %d,tag %d)' % (pl, ns, ts), sh2, {nonce.obj: 'nonce', pt.obj: 'plaintext', aad.obj: 'additional data', key.obj: 'key'}, {out.obj})
+                        ct = e.new_slice(e.slice_list(out))
+                        p2, err = e.call('(*%s.sm4GcmAsm).Open' % SM4, [aead.v, NILSLICE, nonce, ct, aad])
+                        audit(e, 'Open(%d;nonce %d,tag %d)' % (pl, ns, ts), sh2, {nonce.obj: 'nonce', ct.obj: 'ciphertext', aad.obj: 'additional data', key.obj: 'key'}, {p2.obj} if p2.obj else set())
         eng.explore(run)
         ck.absorb(eng)
 
@@ -189,6 +193,8 @@ func TestVerifReplay(t *testing.T) {
                                'read-only shared state commute is an argument. A go test -race run with 8 goroutines sharing one AEAD and the same buffers is executed as validation (the race detector does not see '
                                'assembly stores, which is why the store log of the assembly interpreter matters).')
     ck.extra['operations_audited'] = nops
+    ck.bounds.append('write sets of %d public operations, one symbolic execution each: NewCipher, Encrypt/Decrypt (assembly and portable cipher), NewGCM, Seal/Open for plaintext lengths 0/17/64/300 with (nonce,tag) sizes (12,16), (13,12), (130,16), SignHashed, VerifyHashed, DerivePublic, ZA, ScalarBaseMult, ScalarMixedMult_Unsafe, sm3 Write/Sum/SumSM3; data concrete or symbolic as in C10 (addresses do not depend on data: C09)' % nops)
+    ck.outside.append('interleavings are not enumerated (frame condition only); arm64 assembly; lazily initialised state inside the Go runtime or standard library')
     ck.assumptions.append('operations whose write sets are disjoint and whose shared state is read-only commute (argument, not a solver result)')
     ck.finish()
 
